@@ -91,10 +91,10 @@ th!(c01_t_finalise_ack_middle_held, 14, { finalise_step(TransmissionMode::Acknow
 //# funcs=RecvTransaction::process_pdu(EoF),check_finished,has_naks; bound=acknowledged mode, two segments (0,1),(3,4) held; stubs=S1,S2,S3,S5; nocover=clean delivery|complete but checksum mismatch
 th!(c01_t_finalise_ack_two_segments, 14, { finalise_step(TransmissionMode::Acknowledged, 5, 0) });
 //# funcs=RecvTransaction::process_pdu(Metadata),check_finished,finalize_receive,verify_checksum,finalize_file; bound=acknowledged mode, metadata arrives after EOF, file completely held; stubs=S1,S2,S3,S5
-th!(c01_t_finalise_ack_metadata_last, 14, { finalise_step(TransmissionMode::Acknowledged, 1, 1) });
+th!(c01_x_finalise_ack_metadata_last, 14, { finalise_step(TransmissionMode::Acknowledged, 1, 1) });
 //# funcs=RecvTransaction::process_pdu(EoF) unacknowledged,finalize_receive,verify_checksum,finalize_file; bound=unacknowledged mode, file completely held; stubs=S1,S2,S3,S5; nocover=incomplete
 th!(c01_q_finalise_unack_complete, 14, { finalise_step(TransmissionMode::Unacknowledged, 1, 0) });
 //# funcs=RecvTransaction::process_pdu(EoF) unacknowledged,finalize_receive; bound=unacknowledged mode, head missing (held (2,4)); stubs=S1,S2,S3,S5; nocover=clean delivery|complete but checksum mismatch
 th!(c01_q_finalise_unack_head_missing, 14, { finalise_step(TransmissionMode::Unacknowledged, 3, 0) });
 //# funcs=RecvTransaction::process_pdu(Metadata),check_finished; bound=acknowledged mode, metadata last, head missing; stubs=S1,S2,S3,S5
-th!(c01_t_finalise_ack_metadata_last_head_missing, 14, { finalise_step(TransmissionMode::Acknowledged, 3, 1) });
+th!(c01_x_finalise_ack_metadata_last_head_missing, 14, { finalise_step(TransmissionMode::Acknowledged, 3, 1) });
